@@ -41,6 +41,7 @@ namespace sim
 		, m_writing_to_server(false)
 		, m_resolving(false)
 		, m_connecting(false)
+		, m_origin_port(0)
 		, m_num_client_in_bytes(0)
 		, m_num_server_out_bytes(0)
 		, m_num_in_bytes(0)
@@ -200,6 +201,21 @@ namespace sim
 		}
 		out_request += "\r\n";
 
+		// all requests of a client connection go over the one connection to the
+		// origin its first request named. A request for another origin cannot be
+		// served on it
+		if (m_origin_host.empty())
+		{
+			m_origin_host = host;
+			m_origin_port = port;
+		}
+		else if (host != m_origin_host || port != m_origin_port)
+		{
+			std::printf("http_proxy::forward_request: request for %s:%d on a connection to %s:%d\n"
+				, host.c_str(), port, m_origin_host.c_str(), m_origin_port);
+			throw std::runtime_error("request for another origin");
+		}
+
 		if (m_num_server_out_bytes + out_request.size() > sizeof(m_server_out_buffer))
 		{
 			std::printf("http_proxy: Too many queued server requests: %d bytes\n"
@@ -232,9 +248,6 @@ namespace sim
 			open_forward_connection(target);
 			return;
 		}
-
-		// TODO: make sure we're connecting/connected to the same (host, port)
-		// that this request is for. Don't support multiple servers
 
 		write_server_send_buffer();
 	}
@@ -399,6 +412,8 @@ namespace sim
 		m_resolving = false;
 		m_connecting = false;
 		m_writing_to_server = false;
+		m_origin_host.clear();
+		m_origin_port = 0;
 		m_resolver.cancel();
 
 		error_code err;
